@@ -49,12 +49,12 @@ type WorkerResult struct {
 // stall watchdog of crash-prone properties reads it.
 var runStarted atomic.Int64
 
-func startStallWatchdog() {
+func startStallWatchdog(limit time.Duration) {
 	go func() {
 		for {
 			time.Sleep(time.Second)
-			if s := runStarted.Load(); s != 0 && time.Now().UnixNano()-s > int64(hangLimit) {
-				fmt.Fprintf(os.Stderr, "fatal error: hang: run did not finish within %v\n", hangLimit)
+			if s := runStarted.Load(); s != 0 && time.Now().UnixNano()-s > int64(limit) {
+				fmt.Fprintf(os.Stderr, "fatal error: hang: run did not finish within %v\n", limit)
 				os.Exit(3)
 			}
 		}
@@ -95,7 +95,9 @@ func TestWorker(t *testing.T) {
 	start := time.Now()
 	if job.Replay != "" {
 		if cp, ok := prop.(interface{ CrashProne() bool }); ok && cp.CrashProne() {
-			startStallWatchdog()
+			startStallWatchdog(hangLimit)
+		} else {
+			startStallWatchdog(hangLimitOther)
 		}
 		runStarted.Store(time.Now().UnixNano())
 		runReplay(t, prop, &job, res)
@@ -128,11 +130,14 @@ func TestWorker(t *testing.T) {
 	if cp, ok := prop.(interface{ CrashProne() bool }); ok {
 		crashProne = cp.CrashProne()
 	}
+	// Code spinning without a scheduling point cannot be preempted by the
+	// simulator; only here does real time take part in a verdict, with a
+	// limit far above any legitimate run, and only if a fresh-process replay
+	// of the same run stalls again.
 	if crashProne {
-		// A decoder spinning without a scheduling point cannot be preempted
-		// by the simulator; only here does real time take part in a verdict,
-		// with a limit far above any legitimate run (inputs are a few KiB).
-		startStallWatchdog()
+		startStallWatchdog(hangLimit)
+	} else {
+		startStallWatchdog(hangLimitOther)
 	}
 	if job.MaxRuns == 0 {
 		job.MaxRuns = prop.Runs(job.Tier)
@@ -170,10 +175,10 @@ func TestWorker(t *testing.T) {
 		tape := NewTape(job.Seed, job.Property, run)
 		c := prop.Gen(tape, job.Tier, run)
 		x := NewExec(t, tape, res.Stats)
+		// a fatal runtime error or a stall cannot be recovered: leave a note
+		// saying which run was executing
+		os.WriteFile(job.Out+".inflight", []byte(fmt.Sprint(run)), 0o644)
 		if crashProne {
-			// a fatal runtime error (stack overflow, out of memory) cannot be
-			// recovered: leave a note saying which run was executing
-			os.WriteFile(job.Out+".inflight", []byte(fmt.Sprint(run)), 0o644)
 			// ... and checkpoint the statistics so that the runs before a
 			// crash are still accounted for
 			res.NextRun = run
@@ -260,6 +265,11 @@ const maxKeysPerWorker = 400000
 
 // hangLimit is the real-time limit of one run of a crash-prone property.
 const hangLimit = 60 * time.Second
+
+// hangLimitOther is the same for the other properties, whose runs are
+// bounded by the simulator's step budget (a livelocked run of the largest
+// budget takes a few minutes under load).
+const hangLimitOther = 600 * time.Second
 
 func matchKnown(known []KnownFinding, prop string, v *Violation) *KnownFinding {
 	for i := range known {
